@@ -218,6 +218,20 @@ Proof.
   intros. unfold w_renameat2, w_renameat. destruct (N.eqb fl 0); apply two_fd_ok; pdn_solve.
 Qed.
 
+Lemma openat2_flags_keeps fl c : has fl c = true -> has (openat2_flags fl) c = true.
+Proof. intro H. unfold openat2_flags. destruct (has _ O_PATH); [|apply has_lor_l]; apply has_lor_l; exact H. Qed.
+
+Lemma openat2_flags_cloexec fl : has (openat2_flags fl) O_CLOEXEC = true.
+Proof. unfold openat2_flags. destruct (has _ O_PATH); [|apply has_lor_l]; apply has_lor_r; reflexivity. Qed.
+
+(* never a controlling terminal: O_NOCTTY, or the open is an O_PATH one *)
+Lemma openat2_flags_noctty fl : has (openat2_flags fl) O_NOCTTY || has (openat2_flags fl) O_PATH = true.
+Proof.
+  unfold openat2_flags. destruct (has (N.lor fl OPENAT2_FORCED) O_PATH) eqn:E.
+  - rewrite E. apply orb_true_r.
+  - apply orb_true_iff. left. apply has_lor_r. reflexivity.
+Qed.
+
 Lemma w_openat2_ok fz fd p fl m rs :
   real_fd fd = true -> has rs RESOLVE_NO_MAGICLINKS = true ->
   (has rs RESOLVE_IN_ROOT || (has rs RESOLVE_BENEATH && has rs RESOLVE_NO_XDEV)) = true ->
@@ -226,9 +240,8 @@ Proof.
   intros Hfd Hm Hr. unfold w_openat2. rewrite (real_fd_valid _ Hfd). cbn [negb].
   destruct (OPENAT2_NUL_EINVAL && has_nul p); [apply fail1_ok|].
   constructor.
-  - split; [|reflexivity]. cbn [disc_b]. rewrite Hfd, Hm, Hr.
-    replace (has (N.lor fl OPENAT2_FORCED) O_CLOEXEC) with true; [reflexivity|].
-    symmetry. apply has_lor_r. reflexivity.
+  - split; [|reflexivity]. cbn [disc_b]. rewrite Hfd, Hm, Hr, openat2_flags_cloexec. cbn [andb].
+    pose proof (openat2_flags_noctty fl) as Hn. apply orb_true_iff in Hn. destruct Hn as [-> | ->]; [reflexivity|rewrite orb_true_r; reflexivity].
   - intro r. destruct (as_fd r) eqn:E; [constructor; cbn; eapply as_fd_real; exact E|apply fail1_ok].
 Qed.
 
